@@ -148,6 +148,9 @@ def _gen_stmt(rng, layout, here, is_init, cfg, idx, in_class=False):
         rel = _as_relative(rng, here, is_init, target)
         if rel:
             spec = rel
+    if k in ("from", "star") and rng.random() < 0.06:
+        # a relative import with more dots than the module is deep (`from ... import x` in pkg/m.py): beyond the top
+        spec = "." * rng.choice([2, 3, 4]) + rng.choice(["", "", "x", "zz"])
     if k == "from":
         names = NAMES + MODS + ["s", "m"]
         name = rng.choice(names)
